@@ -21,8 +21,11 @@ from .value import (
     DictIncompleteValue,
     KnownValue,
     MultiValuedValue,
+    ParamSpecArgsValue,
+    ParamSpecKwargsValue,
     SequenceValue,
     SubclassValue,
+    TypeAliasValue,
     TypedDictValue,
     TypedValue,
     UnboundMethodValue,
@@ -99,6 +102,11 @@ def _get_boolability_no_mvv(value: Value) -> Boolability:
         value = value.value
     value = replace_known_sequence_value(value)
     if isinstance(value, AnyValue):
+        return Boolability.boolable
+    elif isinstance(value, TypeAliasValue):
+        return get_boolability(value.get_value())
+    elif isinstance(value, (ParamSpecArgsValue, ParamSpecKwargsValue)):
+        # the tuple / dict of extra arguments may be empty
         return Boolability.boolable
     elif isinstance(value, UnboundMethodValue):
         if value.secondary_attr_name:
